@@ -68,7 +68,8 @@ StepVerdict(s, e, t, o) ==
   ELSE IF e.a = "CheckOut" THEN CheckOutContract(s, Fn(e.tree), t)
   ELSE SparseContract(s, SetOf(e.sp), t)
 
-(* fold along the script, following the implementation's state *)
+(* fold along the script, following the implementation's state; a failing verdict *)
+(* carries the (1-based) index of the step: "SnapshotOK@5"                       *)
 RECURSIVE Run(_, _, _)
 Run(r, i, acc) ==
   IF i > Len(r.steps) \/ acc.bad # "ok" THEN acc
@@ -77,7 +78,8 @@ Run(r, i, acc) ==
            t == ObsState(o, r.xp)
            v == StepVerdict(acc.s, e, t, o)
            d == IF v = "ok" /\ ~IsEdit(e.a) THEN ~Same(Expected(acc.s, e), t, e.a # "Snapshot") ELSE FALSE
-       IN Run(r, i + 1, [s |-> t, bad |-> v, div |-> acc.div \/ d])
+       IN Run(r, i + 1, [s |-> t, bad |-> IF v = "ok" THEN "ok" ELSE v \o "@" \o ToString(i),
+                         div |-> acc.div \/ d])
 
 UniverseOK(r) == r.paths = PathOrder /\ r.vocab = IgnoreVocab
 
